@@ -18,12 +18,13 @@ Container level (`Model/FilesEcl10.lean`):
   e.g. the UTF-8 lengths, breaks this statement: `string_list_wrong_padding_breaks`.)
 * `ecl10_read_write`: a file `write` accepts, smaller than 4 GiB, whose strings satisfy the codec laws
   (`wfEcl10`, decidable) reads back as exactly the same file;
-* `ecl10_write_err_iff`: `write` fails exactly when a string cannot be encoded, the include section
+* `ecl10_write_err_iff`: `write` fails exactly when a string cannot be encoded or its encoding contains a NUL, the include section
   does not fit its 16-bit length field, or an instruction does not fit its header; it never panics
   (`ecl10_write_no_panic`), and below 4 GiB no `as u32` narrows anything (`ecl10_write_ok_no_narrowing`);
-* `ecl10_nul_in_name_unreadable`: the hypothesis "NUL-free" is necessary and the unchanged code
-  violates the property there: an include name containing U+0000 is written without a diagnostic and
-  the file cannot be read back (replayed on the CLI; open finding).
+* since dcd07d9 a name whose encoding contains a NUL is a diagnostic (`ecl10_nul_in_name_rejected`,
+  `ecl10_write_ok_nul_free`); the proof attempt had exposed that such a name was written silently into a
+  file the reader rejected.  `ecl10_read_write_full`: for a codec whose decoder inverts its encoder EVERY
+  accepted file with distinct sub names below 4 GiB reads back as itself.
 -/
 namespace TruthModel.C03
 open TruthModel TruthModel.InstrIO TruthModel.Files TruthModel.C16
@@ -269,24 +270,39 @@ theorem string_list_wrong_padding_breaks :
 
 /-! ## the container: text layer -/
 
-/-- the codec laws the round trip needs of one string: what `Encoded::encode` produces contains no NUL
-and `Encoded::decode` maps it back to the string.  (`encoding_rs::SHIFT_JIS`: true of every string without
-U+0000 and without the three scalars C15 pins as ambiguous; decidable for a concrete codec.) -/
+/-- the codec law the round trip needs of one string: `Encoded::decode` maps what `Encoded::encode` produced
+back to the string.  (`encoding_rs::SHIFT_JIS`: true of every string without the three scalars C15 pins as
+ambiguous; decidable for a concrete codec.)  That the encoding is NUL-free is no longer a hypothesis: since
+dcd07d9 a successful write implies it (`encAll_nul_free`). -/
 def codecOk (sj : Abi.Sjis) (t : Text) : Bool :=
   match sj.enc t with
-  | some b => !b.contains 0 && sj.dec b == some t
+  | some b => sj.dec b == some t
   | none => true
 
 theorem codecOk_spec {sj : Abi.Sjis} {t : Text} {b : Bytes} (h : codecOk sj t = true) (he : sj.enc t = some b) :
-    (0 : UInt8) ∉ b ∧ sj.dec b = some t := by
+    sj.dec b = some t := by
   unfold codecOk at h
   rw [he] at h
-  simp only [Bool.and_eq_true, Bool.not_eq_true', beq_iff_eq] at h
-  refine ⟨?_, h.2⟩
-  intro hm
-  have : b.contains 0 = true := List.contains_iff_mem.2 hm
-  rw [this] at h
-  exact absurd h.1 (by decide)
+  simpa using h
+
+/-- what `write_string_list` got past is NUL-free (dcd07d9) -/
+theorem encAll_nul_free (sj : Abi.Sjis) : ∀ (ts : List Text) (raws : List Bytes), encAll sj ts = .ok raws →
+    ∀ r ∈ raws, (0 : UInt8) ∉ r := by
+  intro ts
+  induction ts with
+  | nil => intro raws h; rw [encAll] at h; cases h; intro r hr; cases hr
+  | cons t ts ih =>
+    intro raws h
+    rw [encAll] at h
+    repeat' split at h
+    all_goals first | (cases h; done) | skip
+    rename_i b hb hnul _ bs hbs
+    cases h
+    intro r hr
+    rcases List.mem_cons.1 hr with rfl | hr
+    · intro hm
+      exact hnul (List.contains_iff_mem.2 hm)
+    · exact ih bs hbs r hr
 
 theorem encAll_spec (sj : Abi.Sjis) : ∀ (ts : List Text) (raws : List Bytes), encAll sj ts = .ok raws → (∀ t ∈ ts, codecOk sj t = true) →
     raws.length = ts.length ∧ (∀ r ∈ raws, (0 : UInt8) ∉ r) ∧ (∀ r ∈ raws, sj.dec r = some ((sj.dec r).getD [])) ∧
@@ -299,9 +315,10 @@ theorem encAll_spec (sj : Abi.Sjis) : ∀ (ts : List Text) (raws : List Bytes), 
     rw [encAll] at h
     repeat' split at h
     all_goals first | (cases h; done) | skip
-    rename_i b hb _ bs hbs
+    rename_i b hb hnul _ bs hbs
     cases h
-    obtain ⟨h0, hd⟩ := codecOk_spec (hok t (List.mem_cons_self ..)) hb
+    have hd := codecOk_spec (hok t (List.mem_cons_self ..)) hb
+    have h0 : (0 : UInt8) ∉ b := fun hm => hnul (List.contains_iff_mem.2 hm)
     obtain ⟨i1, i2, i3, i4⟩ := ih bs hbs (fun x hx => hok x (List.mem_cons_of_mem _ hx))
     refine ⟨by simp [i1], ?_, ?_, ?_⟩
     · intro r hr; rcases List.mem_cons.1 hr with rfl | hr
@@ -483,9 +500,10 @@ theorem readSubsAux_write : ∀ (subs : List (Text × List Instr10)) (blobs : Li
 /-! ## the container: the whole file -/
 
 /-- the explicit well-formedness predicate of a stack ECL file (decidable for a concrete codec): every
-string obeys the codec laws (`codecOk`: encoding NUL-free and decoded back to the string), and the sub
-names are distinct (an invariant of the `IndexMap` that holds the subs).  The compiler's output satisfies
-it whenever no include name contains U+0000 or one of the three ambiguous scalars of C15. -/
+string is decoded back to itself from its encoding (`codecOk`), and the sub names are distinct (an
+invariant of the `IndexMap` that holds the subs).  The compiler's output satisfies it whenever no name
+contains one of the three ambiguous scalars of C15.  NUL-freeness is not part of it any more: a
+successful write implies it (dcd07d9, `encAll_nul_free`, `ecl10_write_ok_nul_free`). -/
 def wfEcl10 (sj : Abi.Sjis) (f : Ecl10File) : Bool :=
   f.anim.all (codecOk sj) && f.ecli.all (codecOk sj) && f.subs.all (fun s => codecOk sj s.1) &&
   decide ((f.subs.map (·.1)).Nodup)
@@ -595,8 +613,14 @@ theorem ecl10_read_write (sj : Abi.Sjis) (f : Ecl10File) (bs : Bytes)
 /-- the encoding the writer uses for a string (`[]` where there is none: only used under "every string encodes") -/
 def encOf (sj : Abi.Sjis) (t : Text) : Bytes := (sj.enc t).getD []
 
+/-- what `write_string_list` demands of one string: it has an encoding, and the encoding contains no NUL -/
+def nameFits (sj : Abi.Sjis) (t : Text) : Bool :=
+  match sj.enc t with
+  | some b => !b.contains 0
+  | none => false
+
 theorem encAll_decides (sj : Abi.Sjis) : ∀ ts : List Text,
-    Decides (encAll sj ts) (∀ t ∈ ts, (sj.enc t).isSome = true) ∧ ∀ raws, encAll sj ts = .ok raws → raws = ts.map (encOf sj) := by
+    Decides (encAll sj ts) (∀ t ∈ ts, nameFits sj t = true) ∧ ∀ raws, encAll sj ts = .ok raws → raws = ts.map (encOf sj) := by
   intro ts
   induction ts with
   | nil => exact ⟨⟨fun _ => ⟨_, rfl⟩, fun h => absurd (fun t ht => by cases ht) h⟩, fun raws h => by rw [encAll] at h; cases h; rfl⟩
@@ -606,23 +630,33 @@ theorem encAll_decides (sj : Abi.Sjis) : ∀ ts : List Text,
     | none =>
       refine ⟨⟨fun hall => ?_, fun _ => ⟨_, rfl⟩⟩, fun raws h => by cases h⟩
       have := hall t (List.mem_cons_self ..)
-      rw [ht] at this; cases this
+      simp [nameFits, ht] at this
     | some b =>
       simp only
-      obtain ⟨ihd, ihv⟩ := ih
-      by_cases hall : ∀ x ∈ ts, (sj.enc x).isSome = true
-      · obtain ⟨raws, hr⟩ := ihd.1 hall
-        rw [hr]
-        refine ⟨⟨fun _ => ⟨_, rfl⟩, fun hn => absurd (fun x hx => ?_) hn⟩, fun raws' h => ?_⟩
-        · rcases List.mem_cons.1 hx with rfl | hx
-          · rw [ht]; rfl
-          · exact hall x hx
-        · cases h
-          simp only [List.map_cons, encOf, ht, Option.getD_some, List.cons.injEq, true_and]
-          exact ihv raws hr
-      · obtain ⟨c, hc⟩ := ihd.2 hall
-        rw [hc]
-        exact ⟨⟨fun h => absurd (fun x hx => h x (List.mem_cons_of_mem _ hx)) hall, fun _ => ⟨_, rfl⟩⟩, fun raws' h => by cases h⟩
+      by_cases hnul : b.contains 0 = true
+      · rw [if_pos hnul]
+        refine ⟨⟨fun hall => ?_, fun _ => ⟨_, rfl⟩⟩, fun raws h => by cases h⟩
+        have := hall t (List.mem_cons_self ..)
+        simp [nameFits, ht] at this
+        exact absurd (List.contains_iff_mem.1 hnul) this
+      · rw [if_neg hnul]
+        have htfit : nameFits sj t = true := by
+          simp [nameFits, ht]
+          exact fun hm => hnul (List.contains_iff_mem.2 hm)
+        obtain ⟨ihd, ihv⟩ := ih
+        by_cases hall : ∀ x ∈ ts, nameFits sj x = true
+        · obtain ⟨raws, hr⟩ := ihd.1 hall
+          rw [hr]
+          refine ⟨⟨fun _ => ⟨_, rfl⟩, fun hn => absurd (fun x hx => ?_) hn⟩, fun raws' h => ?_⟩
+          · rcases List.mem_cons.1 hx with rfl | hx
+            · exact htfit
+            · exact hall x hx
+          · cases h
+            simp only [List.map_cons, encOf, ht, Option.getD_some, List.cons.injEq, true_and]
+            exact ihv raws hr
+        · obtain ⟨c, hc⟩ := ihd.2 hall
+          rw [hc]
+          exact ⟨⟨fun h => absurd (fun x hx => h x (List.mem_cons_of_mem _ hx)) hall, fun _ => ⟨_, rfl⟩⟩, fun raws' h => by cases h⟩
 
 /-- bytes `write_string_list` writes for encoded strings: every string and its NUL, padded to a multiple of 4 -/
 def listLen (raws : List Bytes) : Nat :=
@@ -634,11 +668,11 @@ theorem strListBody_sum (raws : List Bytes) : (strListBody raws).2 = (raws.map (
   | cons r rs ih => simp only [strListBody, ih, List.map_cons, List.sum_cons]
 
 theorem writeInclude_decides (sj : Abi.Sjis) (m : Bytes) (ts : List Text) :
-    Decides (writeInclude sj m ts) (∀ t ∈ ts, (sj.enc t).isSome = true) ∧
+    Decides (writeInclude sj m ts) (∀ t ∈ ts, nameFits sj t = true) ∧
     ∀ b, writeInclude sj m ts = .ok b → b.length = m.length + 4 + listLen (ts.map (encOf sj)) := by
   obtain ⟨hd, hv⟩ := encAll_decides sj ts
   unfold writeInclude writeStringList
-  by_cases hall : ∀ t ∈ ts, (sj.enc t).isSome = true
+  by_cases hall : ∀ t ∈ ts, nameFits sj t = true
   · obtain ⟨raws, hr⟩ := hd.1 hall
     have := hv raws hr
     subst this
@@ -652,10 +686,10 @@ theorem writeInclude_decides (sj : Abi.Sjis) (m : Bytes) (ts : List Text) :
     exact ⟨⟨fun h => absurd h hall, fun _ => ⟨_, rfl⟩⟩, fun b hb => by cases hb⟩
 
 theorem writeStringList_decides (sj : Abi.Sjis) (ts : List Text) :
-    Decides (writeStringList sj ts) (∀ t ∈ ts, (sj.enc t).isSome = true) := by
+    Decides (writeStringList sj ts) (∀ t ∈ ts, nameFits sj t = true) := by
   obtain ⟨hd, _⟩ := encAll_decides sj ts
   unfold writeStringList
-  by_cases hall : ∀ t ∈ ts, (sj.enc t).isSome = true
+  by_cases hall : ∀ t ∈ ts, nameFits sj t = true
   · obtain ⟨raws, hr⟩ := hd.1 hall
     simp only [hr]
     exact ⟨fun _ => ⟨_, rfl⟩, fun hn => absurd hall hn⟩
@@ -697,24 +731,26 @@ theorem writeSubs10_decides : ∀ (scripts : List (List Instr10)) (pos : Nat),
 def includeLen (sj : Abi.Sjis) (f : Ecl10File) : Nat :=
   (4 + 4 + listLen (f.anim.map (encOf sj))) + (4 + 4 + listLen (f.ecli.map (encOf sj)))
 
-/-- everything `write` has to fit or encode: every include name and every sub name has an encoding,
-the include section fits its 16-bit length field, every instruction fits its header -/
+/-- everything `write` has to fit or encode: every include name and every sub name has an encoding
+without a NUL byte (`nameFits`), the include section fits its 16-bit length field, every instruction
+fits its header -/
 def Ecl10Fits (sj : Abi.Sjis) (f : Ecl10File) : Prop :=
-  (∀ t ∈ f.anim, (sj.enc t).isSome = true) ∧ (∀ t ∈ f.ecli, (sj.enc t).isSome = true) ∧ includeLen sj f ≤ 65535 ∧
-  (∀ s ∈ f.subs, (sj.enc s.1).isSome = true) ∧ ∀ s ∈ f.subs, ∀ i ∈ s.2, fits10 i = true
+  (∀ t ∈ f.anim, nameFits sj t = true) ∧ (∀ t ∈ f.ecli, nameFits sj t = true) ∧ includeLen sj f ≤ 65535 ∧
+  (∀ s ∈ f.subs, nameFits sj s.1 = true) ∧ ∀ s ∈ f.subs, ∀ i ∈ s.2, fits10 i = true
 
-/-- **stack ECL: the writer fails exactly when a string has no encoding, the include section does not
-fit its 16-bit length field, or an instruction does not fit its header - and never panics**: the
+/-- **stack ECL: the writer fails exactly when a string has no encoding or an encoding that contains a
+NUL (dcd07d9), the include section does not fit its 16-bit length field, or an instruction does not fit
+its header - and never panics**: the
 `unwrap` of `u32::try_from(include_offset)` and the `assert_eq!` on the number of offsets are dead. -/
 theorem ecl10_write_err_iff (sj : Abi.Sjis) (f : Ecl10File) : Decides (writeEcl10 sj f) (Ecl10Fits sj f) := by
   unfold writeEcl10
   simp only []
   obtain ⟨hda, hla⟩ := writeInclude_decides sj animMagic f.anim
   obtain ⟨hde, hle⟩ := writeInclude_decides sj ecliMagic f.ecli
-  by_cases h1 : ∀ t ∈ f.anim, (sj.enc t).isSome = true
+  by_cases h1 : ∀ t ∈ f.anim, nameFits sj t = true
   · obtain ⟨a, ha⟩ := hda.1 h1
     simp only [ha]
-    by_cases h2 : ∀ t ∈ f.ecli, (sj.enc t).isSome = true
+    by_cases h2 : ∀ t ∈ f.ecli, nameFits sj t = true
     · obtain ⟨e, he⟩ := hde.1 h2
       simp only [he]
       have hlen : a.length + e.length = includeLen sj f := by
@@ -722,7 +758,7 @@ theorem ecl10_write_err_iff (sj : Abi.Sjis) (f : Ecl10File) : Decides (writeEcl1
       by_cases h3 : includeLen sj f ≤ 65535
       · rw [if_neg (by omega), if_neg (by decide)]
         have hdn := writeStringList_decides sj (f.subs.map (·.1))
-        by_cases h4 : ∀ s ∈ f.subs, (sj.enc s.1).isSome = true
+        by_cases h4 : ∀ s ∈ f.subs, nameFits sj s.1 = true
         · obtain ⟨nb, hnb⟩ := hdn.1 (by
             intro t ht
             obtain ⟨x, hx, rfl⟩ := List.mem_map.1 ht
@@ -845,30 +881,63 @@ example (name : Text) (hn : name.length = 65516) (h : ∀ c ∈ name, c.toNat < 
     List.sum_cons, List.sum_nil] at h3
   simp [padLen] at h3
 
-/-- an include name containing U+0000: accepted by `write`, not well-formed -/
+/-- an include name containing U+0000 -/
 def nulNameFile : Ecl10File :=
   { anim := ["a.anm".toList, [Char.ofNat 0, 'b']], ecli := ["x".toList], subs := [("main".toList, [])] }
 
 set_option maxRecDepth 100000 in
-/-- **The unchanged code violates C03 here**: `meta { anim: ["a.anm", "\0b"], ecli: ["x"] }` compiles with exit
-status 0 and no diagnostic; the NUL ends the string early for the reader, `read_string_list` pads by
-what IT read, and the next section's magic is not found.  Replayed on the CLI (`truecl compile -g 10`,
-then `truecl decompile -g 10`: "failed to find magic"); listed `open`. -/
-theorem ecl10_nul_in_name_unreadable :
-    ∃ bs, writeEcl10 asciiSjis nulNameFile = .ok bs ∧ readEcl10 asciiSjis bs = .err badMagic ∧ wfEcl10 asciiSjis nulNameFile = false :=
-  ⟨_, rfl, by decide, by decide⟩
-
-/-- the round trip without the codec hypothesis (every accepted file with distinct sub names, below 4 GiB) -/
-def ecl10_read_write_full : Prop :=
-  ∀ (sj : Abi.Sjis) (f : Ecl10File) (bs : Bytes), writeEcl10 sj f = .ok bs → (f.subs.map (·.1)).Nodup → bs.length < 2 ^ 32 →
-    readEcl10 sj bs = .ok f
+/-- **The former violation is now a diagnostic** (dcd07d9): `meta { anim: ["a.anm", "\0b"], ecli: ["x"] }` used to
+compile with exit status 0 into a file whose reader answered "failed to find magic" (the NUL ended the
+string early for `read_string_list`); the writer now refuses the name.  (This theorem replaces the witness
+`ecl10_nul_in_name_unreadable` of the unrepaired model.) -/
+theorem ecl10_nul_in_name_rejected : writeEcl10 asciiSjis nulNameFile = .err nulErr := by decide
 
 set_option maxRecDepth 100000 in
-/-- ... is false: the hypothesis `codecOk` of `ecl10_read_write` is necessary -/
-theorem ecl10_read_write_full_false : ¬ ecl10_read_write_full := by
-  intro h
-  have := h asciiSjis nulNameFile _ rfl (by decide) (by decide)
-  revert this
-  decide
+/-- of two faults of one list the first string decides; for one string the encoding comes first -/
+example : writeEcl10 asciiSjis { anim := [[Char.ofNat 0], [Char.ofNat 0x3042]], ecli := [], subs := [] } = .err nulErr ∧
+    writeEcl10 asciiSjis { anim := [[Char.ofNat 0x3042], [Char.ofNat 0]], ecli := [], subs := [] } = .err encErr := by decide
+
+/-- **whatever `write` accepts has NUL-free names** - for every file and every codec: the include
+names and the sub names all went through `write_string_list` -/
+theorem ecl10_write_ok_nul_free (sj : Abi.Sjis) (f : Ecl10File) (bs : Bytes) (hw : writeEcl10 sj f = .ok bs) :
+    ∀ t ∈ f.anim ++ f.ecli ++ f.subs.map (·.1), nameFits sj t = true := by
+  have hfit : Ecl10Fits sj f := by
+    apply Classical.byContradiction
+    intro hn
+    obtain ⟨c, hc⟩ := (ecl10_write_err_iff sj f).2 hn
+    rw [hc] at hw; cases hw
+  obtain ⟨h1, h2, _, h4, _⟩ := hfit
+  intro t ht
+  rcases List.mem_append.1 ht with ht | ht
+  · rcases List.mem_append.1 ht with ht | ht
+    · exact h1 t ht
+    · exact h2 t ht
+  · obtain ⟨x, hx, rfl⟩ := List.mem_map.1 ht
+    exact h4 x hx
+
+/-- **the round trip with no hypothesis about the file but the `IndexMap` invariant**: for every codec
+whose decoder inverts its encoder, EVERY file `write` accepts (distinct sub names, below 4 GiB) reads
+back as itself.  Before dcd07d9 this statement was false (`nulNameFile` was accepted and unreadable:
+the old `ecl10_read_write_full_false`); a NUL in a name is now a diagnostic, so nothing about the
+strings is left to assume. -/
+theorem ecl10_read_write_full (sj : Abi.Sjis) (hcodec : ∀ t b, sj.enc t = some b → sj.dec b = some t)
+    (f : Ecl10File) (bs : Bytes) (hw : writeEcl10 sj f = .ok bs) (hnd : (f.subs.map (·.1)).Nodup) (hlen : bs.length < 2 ^ 32) :
+    readEcl10 sj bs = .ok f := by
+  have hok : ∀ t, codecOk sj t = true := by
+    intro t
+    unfold codecOk
+    cases h : sj.enc t with
+    | none => rfl
+    | some b => simp [hcodec t b h]
+  apply ecl10_read_write sj f bs hw _ hlen
+  simp only [wfEcl10, Bool.and_eq_true, List.all_eq_true, decide_eq_true_eq]
+  exact ⟨⟨⟨fun t _ => hok t, fun t _ => hok t⟩, fun s _ => hok s.1⟩, hnd⟩
+
+/-- the codec hypothesis is still needed (it is a law of Shift-JIS, checked by C15, not of the file):
+with a decoder that does not invert the encoder an accepted file reads back differently -/
+theorem ecl10_read_write_needs_codec_law :
+    ∃ (sj : Abi.Sjis) (f : Ecl10File) (bs : Bytes), writeEcl10 sj f = .ok bs ∧ (f.subs.map (·.1)).Nodup ∧ bs.length < 2 ^ 32 ∧
+      readEcl10 sj bs ≠ .ok f :=
+  ⟨{ enc := asciiSjis.enc, dec := fun _ => some [] }, { anim := ["a".toList], ecli := [], subs := [] }, _, rfl, by decide, by decide, by decide⟩
 
 end TruthModel.C03
